@@ -162,6 +162,11 @@ impl BunWorld {
         if let Err(e) = res {
             return Err(format!("{} / {}", crate::ix::err_name(&e, &out.logs), out.logs.join(" / ")));
         }
+        // the created bundle records ITS mint (every later instruction finds the bundle through it) and is empty
+        match PositionBundle::try_deserialize(&mut &bank.data(&bundle)[..]) {
+            Ok(pb) if pb.position_bundle_mint == mint && pb.position_bitmap.iter().all(|b| *b == 0) => {}
+            _ => return Err("C18/C15 the created position bundle does not record its mint with an empty bitmap".to_string()),
+        }
         // the owner also holds the token of ANOTHER bundle (another mint): auth mode 4 passes that account instead
         let (omint, otoken) = (k(0xE5, 2), k(0xE6, 2));
         let m = bank.data(&mint);
